@@ -130,7 +130,11 @@ def str_method(I, s, name):
                 return r
             if name == "strip" and not a:
                 t = sterm(I_, s)
-                return Sym(VStr(py_strip(t)))
+                r = py_strip(t)
+                # assumed contract of str.strip(): the result has no leading/trailing whitespace
+                # (stated as a regular-language membership: word equations make the string solver give up)
+                I_.prover.assume(z3.InRe(r, STRIPPED))
+                return Sym(VStr(r))
             if name == "startswith":
                 return bool_sym(z3.PrefixOf(sterm(I_, a[0]), sterm(I_, s)))
             if name == "endswith":
@@ -154,6 +158,10 @@ def str_method(I, s, name):
 
 
 py_strip = z3.Function("py_strip", z3.StringSort(), z3.StringSort())
+_ANY = z3.Range(z3.StringVal("\x00"), z3.StringVal("\xff"))
+_WS = z3.Union(*[z3.Re(z3.StringVal(c)) for c in (" ", "\t", "\n", "\r", "\x0b", "\x0c", "\x1c", "\x1d", "\x1e", "\x1f", "\x85", "\xa0")])
+_NONWS = z3.Intersect(_ANY, z3.Complement(_WS))
+STRIPPED = z3.Union(z3.Re(z3.StringVal("")), _NONWS, z3.Concat(_NONWS, z3.Star(_ANY), _NONWS))
 
 
 def bool_sym(t):
